@@ -60,6 +60,27 @@ Theorem C18_outer_whitespace_ignored_when_strip : forall T cfg l s r, tables_ok 
 Proof. exact g_outer_whitespace. Qed.
 Print Assumptions C18_outer_whitespace_ignored_when_strip.
 
+(* with strip_all on, the cleaned string depends only on the input without its tabs, line breaks and spaces (`core`):
+   spaces -- and tabs and line breaks, which have become spaces -- are ignored wherever they stand *)
+Theorem C18_strip_all_ignores_every_space : forall T cfg s, tables_ok T -> cfg_strip_all cfg = true ->
+  gclean T cfg s =
+  (let x := core s in
+   let x := if cfg_case_sensitive cfg then x else py_lower T x in
+   if cfg_strip cfg then py_strip T x else x).
+Proof. exact g_strip_all_core. Qed.
+Print Assumptions C18_strip_all_ignores_every_space.
+
+Theorem C18_strip_all_space_inserted_anywhere : forall T cfg a b, tables_ok T -> cfg_strip_all cfg = true ->
+  gclean T cfg (a ++ 32 :: b) = gclean T cfg (a ++ b).
+Proof. exact g_strip_all_spaces. Qed.
+Print Assumptions C18_strip_all_space_inserted_anywhere.
+
+(* with clean_spaces on, repeating a space anywhere changes nothing *)
+Theorem C18_clean_spaces_repeated_space_ignored : forall T cfg a b, tables_ok T -> cfg_clean_spaces cfg = true ->
+  gclean T cfg (a ++ 32 :: 32 :: b) = gclean T cfg (a ++ 32 :: b).
+Proof. exact g_repeated_space. Qed.
+Print Assumptions C18_clean_spaces_repeated_space_ignored.
+
 (* ------------------------------------------------------------------------------------------------ *)
 (* a submission matches an expected string exactly when the two are identical after the normalisation *)
 (* ------------------------------------------------------------------------------------------------ *)
@@ -209,6 +230,11 @@ Proof. exact ex_clean_default. Qed.
 Example C18_ex_strip_off_keeps_leading_space :
   gclean T_plain (cfg_flags true false false true) [32; 97] <> gclean T_plain (cfg_flags true false false true) [97].
 Proof. exact ex_strip_off_keeps_space. Qed.
+
+Example C18_ex_inner_and_repeated_spaces_matter_when_flags_off :
+  gclean T_plain (cfg_flags true true false true) [97; 32; 98] <> gclean T_plain (cfg_flags true true false true) [97; 98]
+  /\ gclean T_plain (cfg_flags true true false false) [97; 32; 32; 98] <> gclean T_plain (cfg_flags true true false false) [97; 32; 98].
+Proof. exact ex_inner_space_matters. Qed.
 
 Example C18_ex_line_breaks_without_clean_spaces :
   gclean T_plain (cfg_flags true true false false) [97; 13; 10; 98] = [97; 32; 98] /\
